@@ -211,7 +211,7 @@ def run(ctx):
         if k in seen:
             continue
         seen.add(k)
-        ctx.violation(f["what"] + (" [" + f["module"] + "]" if "module" in f else ""), dict(kind="c16", **f))
+        ctx.violation(f["what"] + (" [" + f["module"] + "]" if "module" in f else ""), {**f, "check": "c16"})
     if disagreements and not fails:
         ctx.broken.append(f"generator model disagrees with codegen: {disagreements[0]}")
 
